@@ -196,19 +196,16 @@ def validate (orc : UriOracle) (p : Json) : Verdict :=
   | _, _ => .err
 
 /-- `docvalidator.IsValidOriginalDocument` (generic documents): must decode to an object (or
-    `null`) whose `id` is not a non-empty string -/
+    `null`) that has no `id` member, of whatever JSON type -/
 def originalDocOK (doc : Json) : Bool :=
   match doc with
-  | .obj _ => stringEntry (doc.get? "id") = ""
+  | .obj _ => (doc.get? "id").isNone
   | .null => true     -- `json.Unmarshal("null", &map)` leaves the (empty) map untouched
   | _ => false
 
-/-- `didvalidator.IsValidOriginalDocument`: additionally no non-empty `@context` array -/
+/-- `didvalidator.IsValidOriginalDocument`: additionally no `@context` member, in any form -/
 def originalDidDocOK (doc : Json) : Bool :=
-  originalDocOK doc &&
-    match doc.get? "@context" with
-    | some (.arr xs) => xs.isEmpty
-    | _ => true
+  originalDocOK doc && (doc.get? "@context").isNone
 
 end Validator
 end Sidetree
